@@ -136,15 +136,15 @@ fn one_body<'tcx>(tcx: TyCtxt<'tcx>, ldid: LocalDefId, kind: DefKind) -> J {
             );
         }
         let gens = tcx.generics_of(did);
-        let mut gn = Vec::new();
+        // in substitution order: the outermost (impl/trait) parameters first, the item's own last
+        let mut levels: Vec<Vec<J>> = Vec::new();
         let mut g = Some(gens);
         while let Some(gg) = g {
-            for p in gg.own_params.iter() {
-                gn.push(J::s(p.name.as_str()));
-            }
+            levels.push(gg.own_params.iter().map(|p| J::s(p.name.as_str())).collect());
             g = gg.parent.map(|p| tcx.generics_of(p));
         }
-        b.put("generics", J::Arr(gn));
+        levels.reverse();
+        b.put("generics", J::Arr(levels.into_iter().flatten().collect()));
     } else {
         b.put("parent", J::s(body_key(tcx, tcx.parent(did))));
     }
